@@ -47,10 +47,14 @@ def run_case(case):
             run = pl.run_program(d, mode, [])
         if run.error:
             return case, [('no_exception', run.error[-300:])], 0
-        _, recs = pl.parse_xmap_text(run.files.get('', ''))
+        # where a mode reports single-pass records: 'best' main file; 'separate' main (first pass) and _1 (second pass); 'joined' main
+        # (joined records) and _1 (un-joined records); 'all' _1 (first pass) and _2 (second pass) - its main file repeats the joined records
+        files = {'best': ('',), 'separate': ('', '_1'), 'joined': ('', '_1'), 'all': ('_1', '_2')}[mode]
         byq = {}
-        for r in recs:
-            byq.setdefault(int(r['QryContigID']), []).append(r)
+        for sfx in files:
+            _, recs = pl.parse_xmap_text(run.files.get(sfx, ''))
+            for r in recs:
+                byq.setdefault(int(r['QryContigID']), []).append(r)
         rows = {r.queryId: r for r in (run.rows or [])}
         for qid, t in truth.items():
             rs = byq.get(qid, [])
